@@ -131,6 +131,11 @@ func genC02(seed uint64, run int, tier string) *Plan {
 				if sub.K == "findOneAndUpdate" || sub.K == "findOneAndReplace" {
 					sub.Upsert = false // (the id an upsert generates is not reported by these calls)
 				}
+				if len(op.Sub) > 0 && r.IntN(8) == 0 {
+					// index management after the transaction's own writes: refused or failing, it must leave
+					// nothing in what the transaction commits
+					sub = Op{K: "createIndex", DB: "db", C: "c0", D: jd(bson.D{{Key: pick(r, "a", "b", "s"), Value: int32(1)}}), Unique: true}
+				}
 				op.Sub = append(op.Sub, sub)
 			}
 		case 0, 1, 2:
@@ -149,6 +154,26 @@ func genC02(seed uint64, run int, tier string) *Plan {
 			op = Op{K: "bulk", DB: "db", C: "c0", Ordered: r.IntN(2) == 0}
 			for k := 2 + r.IntN(4); k > 0; k-- {
 				op.Items = append(op.Items, g.bulkItem())
+			}
+			if r.IntN(3) == 0 {
+				// the first write into a collection that does not exist (or was dropped), with items that collide on
+				// _id: the collection is created by the call itself, the failing items must still leave nothing
+				op.C = pick(r, "c7", "c8")
+				op.Items = nil
+				for k := 2 + r.IntN(3); k > 0; k-- {
+					id := int32(r.IntN(2))
+					switch r.IntN(3) {
+					case 0:
+						op.Items = append(op.Items, Op{K: "insert", D: jd(bson.D{{Key: "_id", Value: id}, {Key: "a", Value: int32(k)}})})
+					case 1:
+						op.Items = append(op.Items, Op{K: "replace", F: jd(bson.D{{Key: "s", Value: fmt.Sprintf("none%d", k)}}), D: jd(bson.D{{Key: "_id", Value: id}, {Key: "s", Value: "r"}}), Upsert: true})
+					default:
+						op.Items = append(op.Items, Op{K: "updateOne", F: jd(bson.D{{Key: "_id", Value: id}, {Key: "s", Value: fmt.Sprintf("none%d", k)}}), U: jd(bson.D{{Key: "$set", Value: bson.D{{Key: "a", Value: int32(k)}}}}), Upsert: true})
+					}
+				}
+				if r.IntN(3) == 0 {
+					tp.Ops = append(tp.Ops, Op{K: "dropColl", DB: "db", C: op.C})
+				}
 			}
 		case 6:
 			op = g.indexOp("db", "c0")
